@@ -9,6 +9,7 @@ import re, random
 from lib import ast_io
 from lib import emitcheck as E
 from lib.terms import g_str
+from props.cli_gen import split_text, open_ended_sources
 
 ID = 'C10'
 IMPORTS = ['Lang.Ast', 'Lang.Front', 'Comp.RunCompile']
@@ -18,7 +19,7 @@ THEOREMS = ['C10_rule_scan_exact', 'C10_rule_scan_none', 'C10_lex_maximal_munch'
             'C10_front_rejects_non_sentences', 'C10_front_spec', 'C10_front_none_spec', 'C10_canonical_tree_exists', 'C10_parse_canonical_exact', 'C10_canonical_unique',
             'C10_term_fuel_monotone', 'C10_compile_whole_program', 'C10_front_compile_whole',
             'C10_compile_front_rejects_non_sentences', 'C10_compile_front_whole',
-            'C10_quoted_atom_opaque', 'C10_quoted_body_irrelevant']
+            'C10_quoted_atom_opaque', 'C10_quoted_body_irrelevant', 'C10_cli_sources_are_sentences', 'C10_cli_non_sentence_fails']
 RULE = ('source texts: (a) sentences derived at random from the grammar prolog.g4 itself (every alternative, including '
         '=(a,b), unary operators, name/arity, numeral-named compounds, foo(), [a,|T], nested parentheses, directives), '
         '(b) programs printed from random ASTs, both rendered with random spacing, line breaks and % comments, and (c) every '
@@ -29,10 +30,19 @@ RULE = ('source texts: (a) sentences derived at random from the grammar prolog.g
         '(d) quoted atoms that span lines, whose lines start with what means something outside an atom (% /* // # :- . , brackets, '
         'quotes, clause text) and end with every kind of line end, comments that contain quotes, and the single edits placed directly '
         'before / after a quoted atom, on its quotes, and at the line boundaries inside it. '
-        'Non-trivial: a corruption of a text with >= 2 clauses, or an accepted text with >= 2 clauses. Distinct by hash of the text.')
+        '(e) SIZE CLASSES: texts of 8-10 kB (thorough: up to 40 kB) made of hundreds of small clauses - tables of ground facts with atomic '
+        'arguments, such tables with a few other clauses, clauses printed from ASTs with many clauses per predicate - and single-edit '
+        'corruptions of them (one name becomes a reserved word, one token becomes another, one character changes, ...), judged by the '
+        'whole-pipeline model; (f) SEQUENCES of 2-3 source texts given to one run of the command line (a sentence cut into pieces '
+        'inside a comment / quoted atom / clause / bracket / operator / name, open-ended texts followed by their completion, valid and '
+        'corrupted texts mixed): every text is judged alone (library = model), the run must exit 0 iff every text is accepted alone and '
+        'its output must be the concatenation of the texts of the sources before the first refused one (single-edit kinds also: token substitution, name -> reserved word). '
+        'Non-trivial: a corruption of a text with >= 2 clauses, or an accepted text with >= 2 clauses; a source sequence in which a source is refused. Distinct by hash of the text.')
 TRUSTED_BASE = [
     'Coq 8.16.1 kernel (coqc); vm_compute for the in-Coq evaluation of the model on every case',
     'no axioms: all C10 theorems are closed under the global context',
+    'hand-written model Cli/Cli.v of the command line main() (shared with C19) for the two theorems about source sequences; the real '
+    'command line is observed on sequences of sources (each text alone vs. the run) by this check',
     'hand-written model Lang/Lexer.v, Parser.v, Unquote.v of the ANTLR-generated lexer/parser (prolog.g4) and of yp_prolog_visitor.py; '
     'tied to /repo by this differential run (token streams, accept/reject, ASTs), not by translation',
     'the ANTLR 4.9.1 runtime is modelled (maximal munch, rule order, precedence climbing, lowest viable alternative), not verified',
@@ -324,7 +334,12 @@ INSERTABLE = ['.', ':-', '\\+', ',', '->', ';', '(', ')', '/', '|', 'true', 'fai
 _KINDS = ['delete', 'insert', 'duplicate', 'swap', 'truncate-token', 'truncate-char', 'char-delete',
           'char-replace', 'foreign', 'foreign', 'unterminated-end', 'unterminated-boundary', 'trailing',
           'trailing', 'leading', 'leading', 'comment-eof', 'no-final-dot', 'double-sep', 'slash-star',
-          'insert', 'delete', 'near-quoted', 'quote-lost', 'inside-quoted']
+          'insert', 'delete', 'near-quoted', 'quote-lost', 'inside-quoted', 'substitute', 'keyword']
+# large texts: single edits that keep the text's shape (one token becomes a keyword / another token, one character changes)
+_LARGE_KINDS = ['keyword', 'keyword', 'keyword', 'substitute', 'char-replace', 'char-delete', 'delete', 'insert', 'swap', 'foreign',
+                'duplicate', 'no-final-dot', 'comment-eof', 'quote-lost', 'double-sep', 'unterminated-end']
+KEYWORDS = ['true', 'fail', '!', 'true', 'fail']
+_NAME = re.compile(r"[A-Za-z_][A-Za-z0-9_]*|[0-9]+|'(?:\\'|[^'])*'", re.S)
 _QUOTED_KINDS = ['near-quoted', 'near-quoted', 'near-quoted', 'quote-lost', 'inside-quoted', 'inside-quoted']
 _BREAK = re.compile(r'\r\n|\n\r|\r|\n')
 
@@ -386,6 +401,14 @@ def corruptions(rng, clauses, n, kinds=_KINDS):
             t[qi] = t[qi][1:] if rng.random() < 0.5 else t[qi][:-1]
         elif k == 'inside-quoted':
             t[qi] = _edit_inside_quoted(rng, t[qi])
+        elif k == 'keyword':
+            # one name (atom, variable, numeral, quoted atom: functor, argument, goal) becomes a reserved word of the grammar
+            idx = [i for i, x in enumerate(t) if _NAME.fullmatch(x) and x not in ('true', 'fail')]
+            if idx:
+                t[rng.choice(idx)] = rng.choice(KEYWORDS)
+        elif k == 'substitute':
+            # one token is replaced by another token
+            i = rng.randrange(len(t)); t[i] = rng.choice([x for x in INSERTABLE if x != t[i]])
         elif k == 'delete' and len(t) > 1:
             del t[rng.randrange(len(t))]
         elif k == 'insert':
@@ -438,9 +461,113 @@ def corruptions(rng, clauses, n, kinds=_KINDS):
         out.append(case)
     return out
 
+# ------------------------------------------------------------------ size classes: texts of 8-40 kB made of many small clauses
+
+FACT_NAMES = ['edge', 'setting', 'row', 'item', 'n', 'color_of', 'kv', 'aB', 'x1', 'p', 'q']
+_FACT_QUOTED = ["'hello world'", "'A'", "'éß'", "'true'", "'fail'", "''", "'a.b'", "'%not a comment'", "'[]'", "'1'", "'_x'", "'x, y'", "'two\nlines'"]
+
+def g_fact(rng, k):
+    """a ground fact with atomic arguments (unquoted atoms, numerals, quoted atoms without backslash)"""
+    out = [rng.choice(FACT_NAMES), '(']
+    for i in range(rng.choice([1, 2, 2, 3, 3, 4])):
+        if i: out.append(',')
+        r = rng.random()
+        if r < 0.35: out.append('n%d' % (k + i))
+        elif r < 0.6: out.append(str(rng.choice([k, i, 0, 7, 42, 1000 + k])))
+        elif r < 0.8: out.append(rng.choice(ATOMS + ['verbose', 'on', 'off', 'red', 'trueish', 'failx', 'truE', 'fail_']))
+        else: out.append(rng.choice(_FACT_QUOTED))
+    return out + [')', '.']
+
+_CLAUSE_ENDS = ['\n', '\n', '\n', '\n', '   % arc\n', '\r\n', ' ', '\n\n', '\t% c, d. )\n', " % it's\n", '\n  ']
+
+def g_large(rng, style, target):
+    """(text, clauses as token lists) of at least `target` characters.  Styles: `facts` - nothing but ground facts with atomic
+    arguments (tables written by other tools); `facts+` - such a table with a few other clauses in it (variables, lists,
+    zero-arity facts, rules); `clauses` - small clauses printed from random ASTs, many clauses per predicate."""
+    clauses, parts, size, k = [], [], 0, 0
+    while size < target:
+        k += 1
+        if style == 'facts' or (style == 'facts+' and rng.random() < 0.97):
+            c = g_fact(rng, k)
+        elif style == 'facts+':
+            c = rng.choice([['on'], ['p', '(', 'X', ',', 'X', ')'], ['row', '(', '[', 'a', ',', 'b', ']', ')'], ['p', '(', '-', '1', ')'],
+                            ['q', '(', 'f', '(', 'a', ')', ')'], ['p', '(', 'X', ')', ':-', 'q', '(', 'X', ')'], ['p', ':-', 'true'],
+                            ['p', '(', "'it\\'s'", ')'], [':-', 'init']]) + ['.']
+        else:
+            try:
+                c = tokenize(ast_io.clause_text(rng.choice(a_program(rng))))
+            except (AssertionError, ValueError):
+                c = None
+            if c is None:
+                continue
+        t = render(c, rng, rng.choice([0, 0, 1])) + rng.choice(_CLAUSE_ENDS)
+        clauses.append(c); parts.append(t); size += min(len(t), len(' '.join(c)) + 1)      # this text and its single-blank rendering are at least `target` long
+    head = rng.choice(['', '', '% generated table\n', '\n'])
+    return head + ''.join(parts), clauses
+
+def gen_large(rng, tier, i):
+    """one valid large text and single-edit corruptions of it"""
+    sizes = [8200, 8500, 9000, 10000] if tier == 'quick' else [8200, 9000, 12000, 16400, 20000, 25000, 32800, 40000]
+    style = ['facts', 'clauses', 'facts', 'facts+'][i % 4]
+    target = rng.choice(sizes if style != 'clauses' else sizes[:3 if tier == 'quick' else 5])
+    text, clauses = g_large(rng, style, target)
+    out = [{'src': text, 'kind': 'large-' + style, 'base_clauses': len(clauses), 'large': True}]
+    # always one name -> reserved word, then 1 (thorough: 3) edits drawn from the kinds for large texts
+    for c in corruptions(rng, clauses, 1, ['keyword']) + corruptions(rng, clauses, 1 if tier == 'quick' else 3, _LARGE_KINDS):
+        c['kind'] = 'large-' + style + ':' + c['kind']
+        c['large'] = True
+        out.append(c)
+    return out
+
+# ------------------------------------------------------------------ sequences of sources: each text alone, and the command line on all
+
+def gen_multi(rng):
+    """2-3 source texts for ONE run of the command line: a sentence cut into pieces (every piece ends inside a construct that the
+    next piece would complete), open-ended texts followed by their completion, valid and corrupted texts mixed"""
+    r = rng.random()
+    clauses = g_program_tokens(rng, 3)
+    base = render([t for c in clauses for t in c], rng, rng.choice([0, 2, 2]))
+    if r < 0.45 and len(base) > 1:
+        files, how = split_text(rng, base)
+        how = 'split:' + '+'.join(how)
+    elif r < 0.8:
+        more = render([t for c in g_program_tokens(rng, 2) for t in c], rng, rng.choice([0, 2])) + rng.choice(['\n', ''])
+        a, b = open_ended_sources(rng, base if rng.random() < 0.7 else '', more if rng.random() < 0.7 else '')
+        files, how = [a, b], 'open-end'
+        if rng.random() < 0.3:
+            files.insert(rng.choice([0, 2]), more)
+    else:
+        files = [base]
+        for _ in range(rng.choice([1, 2])):
+            c2 = g_program_tokens(rng, 2)
+            files.append(corruptions(rng, c2, 1)[0]['src'] if rng.random() < 0.5 else render([t for c in c2 for t in c], rng, 2))
+        rng.shuffle(files)
+        how = 'mixed'
+    return {'kind': 'multi', 'how': how, 'files': files, 'src': ''.join(files), 'base_clauses': len(clauses)}
+
 # ------------------------------------------------------------------ cases
 
 def gen(rng, tier):
+    cases = _gen_small(rng, tier)
+    # the large texts and the source sequences are spread evenly over the run (every worker / every coqc file gets its share)
+    nlarge, nmulti = (3, 60) if tier == 'quick' else (12, 800)
+    extra = []
+    for i in range(nlarge):
+        extra.extend(gen_large(rng, tier, i))
+    multi = [gen_multi(rng) for _ in range(nmulti)]
+    step = max(1, len(cases) // (len(extra) + 1))
+    out = []
+    mi = 0
+    per = (len(multi) + len(cases) - 1) // max(1, len(cases))
+    for j, c in enumerate(cases):
+        if j % step == step // 2 and extra:
+            out.append(extra.pop())
+        out.append(c)
+        if j * len(multi) // len(cases) >= mi and mi < len(multi):
+            out.append(multi[mi]); mi += 1
+    return out + extra + multi[mi:]
+
+def _gen_small(rng, tier):
     n = 260 if tier == 'quick' else 4000
     cases = []
     for i in range(n):
@@ -516,12 +643,26 @@ def builtin_corpus():
         "p('a\r\n% b\r\n').", "p('a\n% b\n', 'c').\n% d\nq.", "p('a\n:- b.\n').", "p('a\n').\n%').\n", "p('a\n% \\' b').", "p('a\n% \\').  q('b').",
         "p('a \n').", "p('a\t\n b').", "% 'a\np('b\n% c').", "% it's\np. % 'x\nq('\n% y').",
     ]
-    return [{'src': s, 'kind': 'corpus', 'base_clauses': 1} for s in srcs]
+    L = [{'src': s, 'kind': 'corpus', 'base_clauses': 1} for s in srcs]
+    # source sequences: every open end, followed by the text that would complete it (bare, and between other clauses)
+    from props.cli_gen import OPEN_ENDS
+    for i, (a, b) in enumerate(OPEN_ENDS):
+        files = [a, b] if i % 2 else ['k(0).\n' + a, b + 'z(9).\n']
+        L.append({'kind': 'multi', 'how': 'open-end', 'files': files, 'src': ''.join(files), 'base_clauses': 2})
+    L.append({'kind': 'multi', 'how': 'mixed', 'files': ['p(a).\n', '', 'q(b).'], 'src': 'p(a).\nq(b).', 'base_clauses': 2})
+    L.append({'kind': 'multi', 'how': 'mixed', 'files': ['p(a).\n', 'q(b)', 'r(c).\n'], 'src': 'p(a).\nq(b)r(c).\n', 'base_clauses': 3})
+    return L
 
 def model_expr(case):
     # token stream and front end (Lang/Front.v); verdict and emitted text of the whole pipeline (Comp/RunCompile.v: compile_text =
     # front, compile_program, the compiler's own refusals, emit_program with the model of repr(), CPython's size limits)
     from lib.pyrepr_check import cps, g_cps, printable_table
+    if case['kind'] == 'multi':
+        # every source text alone through the whole pipeline model
+        return '(OL [%s])' % '; '.join(E.model_text_expr(t) for t in case['files'])
+    if case.get('large'):
+        # large texts: the whole pipeline model only (its front end is `front`; the token stream is not printed)
+        return '(OL [%s])' % E.model_text_expr(case['src'])
     c = cps(case['src'])
     tbl = '; '.join('%d%%N' % x for x in printable_table(c))
     return '(let s0 := %s in OL [run_lex s0; run_front s0; run_compile_text [%s] s0])' % (g_cps(c), tbl)
@@ -531,7 +672,77 @@ def model_expr(case):
 def _exc(e):
     return ['raised', type(e).__name__]
 
+def _scratch_dir():
+    import os
+    d = os.path.join(os.path.dirname(os.path.dirname(os.path.dirname(os.path.abspath(__file__)))), '.work', 'c10files')
+    os.makedirs(d, exist_ok=True)
+    return d
+
+def _impl_multi(case):
+    """every text alone through the library; then ONE run of the command line on all of them (to stdout and with -o)"""
+    import os, click.testing
+    from yldprolog import compiler as C
+    out = {'files': []}
+    for t in case['files']:
+        iv, text, cls = E.compile_verdict(t)
+        if iv == 'resource':
+            raise RecursionError()
+        out['files'].append([iv, text if iv == 'text' else cls])
+    d = _scratch_dir()
+    paths = []
+    try:
+        for i, t in enumerate(case['files']):
+            path = os.path.join(d, 'multi-%d-%d.pl' % (os.getpid(), i))
+            with open(path, 'wb') as f:
+                f.write(t.encode('utf-8'))
+            paths.append(path)
+        res = click.testing.CliRunner().invoke(C.main, paths)
+        out['cli'] = [res.exit_code, res.stdout]
+        opath = os.path.join(d, 'multi-%d-out.py' % os.getpid())
+        res = click.testing.CliRunner().invoke(C.main, ['-o', opath] + paths)
+        try:
+            with open(opath, 'rb') as f:
+                out['cli_o'] = [res.exit_code, f.read().decode('utf-8')]
+            os.unlink(opath)
+        except OSError:
+            out['cli_o'] = [res.exit_code, None]
+    except UnicodeEncodeError:
+        out['cli'] = out['cli_o'] = None
+    finally:
+        for path in paths:
+            try: os.unlink(path)
+            except OSError: pass
+    return out
+
+def _expected_run(verdicts):
+    """(exit status is 0, output) of a run over sources with these [verdict, text] pairs: the texts of the sources before the
+    first one that is refused"""
+    texts = []
+    for v, t in verdicts:
+        if v != 'text':
+            return False, ''.join(texts)
+        texts.append(t)
+    return True, ''.join(texts)
+
+def _judge_run(verdicts, io, who):
+    ok, want = _expected_run(verdicts)
+    for key, what in (('cli', 'to stdout'), ('cli_o', 'with -o')):
+        if io.get(key) is None:
+            continue
+        code, text = io[key]
+        if ok and code != 0:
+            return 'the command line (%s) exits with %r although %s accepts every source alone' % (what, code, who)
+        if not ok and code == 0:
+            return 'the command line (%s) exits with 0 although %s refuses source %d (of %d) alone' % (
+                what, who, [v for v, _ in verdicts].index(next(v for v, _ in verdicts if v != 'text')) + 1, len(verdicts))
+        if text != want:
+            return 'the output of the command line (%s) is not the concatenation of the texts that %s gives for the sources %s' % (
+                what, who, 'alone' if ok else 'before the refused one')
+    return None
+
 def impl(case):
+    if case['kind'] == 'multi':
+        return _impl_multi(case)
     import antlr4
     from yldprolog import compiler as C
     from yldprolog.prologLexer import prologLexer
@@ -631,6 +842,22 @@ def _accepted(io):
 def compare(case, io, mo):
     if not isinstance(io, dict):
         return None
+    if case['kind'] == 'multi':
+        mv = []
+        for i, (t, (iv, itext)) in enumerate(zip(case['files'], io['files'])):
+            r = E.compare_verdicts(t, iv, itext if iv == 'text' else None, mo[i])
+            if r:
+                return 'source %d alone: %s' % (i + 1, r)
+            v, mt = E.model_verdict(mo[i])
+            mv.append([v, mt])
+        return _judge_run(mv, io, 'the model')
+    if case.get('large'):
+        r = E.compare_verdicts(case['src'], io['verdict'], io['compile'][2] if _accepted(io) else None, mo[0])
+        if r:
+            return 'whole pipeline: ' + r
+        if _accepted(io):
+            _STATS['text_compared'] += 1
+        return None
     mlex, mfront, mtext = mo
     if case['kind'] in ('grammar', 'valid-ast', 'valid-ast-spaced') and mfront[0] in ('lex-error', 'parse-error'):
         return 'tie: the model refuses a sentence derived from the grammar (%s)' % mfront[0]
@@ -700,6 +927,9 @@ def oracle(case, io):
     """conditions that need no model"""
     if not isinstance(io, dict):
         return None
+    if case['kind'] == 'multi':
+        # the run accepts iff every source is accepted alone; its output is the concatenation of their texts
+        return _judge_run(io['files'], io, 'the library')
     if _accepted(io):
         if io['ast'][0] != 'ok':
             return 'compile_prolog_from_string returns code for a text for which the front end (lexer, parser with end-of-input test, visitor) raises %s' % io['ast'][1]
@@ -742,11 +972,15 @@ def oracle(case, io):
 def nontrivial(case, io):
     if not isinstance(io, dict):
         return False
-    if case['kind'] in ('grammar', 'valid-ast', 'valid-ast-spaced', 'corpus'):
+    if case['kind'] == 'multi':
+        return len(case['files']) >= 2 and any(v != 'text' for v, _ in io['files'])
+    if case['kind'] in ('grammar', 'valid-ast', 'valid-ast-spaced', 'corpus') or (case.get('large') and ':' not in case['kind']):
         return _accepted(io) and sum(len(g[2]) for g in io['ast'][1]) >= 2
     return case.get('base_clauses', 0) >= 2
 
 def describe(case):
+    if case['kind'] == 'multi':
+        return {'sources': case['files'], 'kind': 'multi:' + case.get('how', '')}
     return {'source': case['src'], 'kind': case['kind']}
 
 def _shrunk(case, src):
@@ -759,7 +993,27 @@ def _shrunk(case, src):
     return c
 
 def shrink(case):
+    if case['kind'] == 'multi':
+        fs = case['files']
+        for i in range(len(fs)):
+            if len(fs) > 1:
+                yield dict(case, files=fs[:i] + fs[i + 1:], src=''.join(fs[:i] + fs[i + 1:]))
+        for i, t in enumerate(fs):
+            for cut in (t[:len(t) // 2], t[len(t) // 2:]):
+                if cut != t:
+                    nf = fs[:i] + [cut] + fs[i + 1:]
+                    yield dict(case, files=nf, src=''.join(nf))
+        return
     src = case['src']
+    if case.get('large') and len(src) > 4000:
+        # large texts: few, coarse candidates (a third of the lines removed); every evaluation costs seconds
+        lines = src.splitlines(True)
+        if len(lines) < 3:
+            lines = [src[i:i + 200] for i in range(0, len(src), 200)]
+        n = len(lines)
+        for a, b in ((0, n // 3), (n // 3, 2 * n // 3), (2 * n // 3, n)):
+            yield _shrunk(case, ''.join(lines[:a] + lines[b:]))
+        return
     toks = tokenize(src, keep_skipped=True)
     if toks is None:
         # cut characters from either end
@@ -786,15 +1040,34 @@ def shrink(case):
 def distribution(cases, obs):
     d = {'by_kind': {}, 'accepted': 0, 'rejected_by_lexer': 0, 'rejected_by_parser': 0, 'rejected_later': 0,
          'too_large': 0, 'length_hist': {}, 'clauses_hist': {}, 'emitted_text_compared_with_model': _STATS['text_compared']}
+    d['source_sequences'] = {'runs': 0, 'all_sources_accepted': 0, 'first_refused_at': {}, 'how': {}}
+    d['large_texts'] = {}
     for c, o in zip(cases, obs):
         if not isinstance(o, dict):
             continue
+        if c['kind'] == 'multi':
+            m = d['source_sequences']
+            m['runs'] += 1
+            vs = [v for v, _ in o['files']]
+            if all(v == 'text' for v in vs):
+                m['all_sources_accepted'] += 1
+            else:
+                k = str(1 + [v == 'text' for v in vs].index(False))
+                m['first_refused_at'][k] = m['first_refused_at'].get(k, 0) + 1
+            for h in c.get('how', '').replace('split:', '').split('+'):
+                m['how'][h] = m['how'].get(h, 0) + 1
+            continue
         acc = _accepted(o)
+        if c.get('large'):
+            b = '%d-%d kB' % (len(c['src']) // 4096 * 4, len(c['src']) // 4096 * 4 + 4)
+            e = d['large_texts'].setdefault(b, {'accepted': 0, 'rejected': 0})
+            e['accepted' if acc else 'rejected'] += 1
         k = d['by_kind'].setdefault(c['kind'], {'accepted': 0, 'rejected': 0})
         k['accepted' if acc else 'rejected'] += 1
         if acc:
             d['accepted'] += 1
-            n = str(sum(len(g[2]) for g in o['ast'][1]))
+            n = sum(len(g[2]) for g in o['ast'][1])
+            n = str(n) if n < 20 else '20-99' if n < 100 else '100+'
             d['clauses_hist'][n] = d['clauses_hist'].get(n, 0) + 1
         elif o['tokens'][0] != 'ok':
             d['rejected_by_lexer'] += 1
